@@ -22,6 +22,12 @@ func gen(tier string, r *lib.Rand, emit func(string)) {
 	for _, s := range acclib.Rejections {
 		emit("load " + hex(s))
 	}
+	// large sizes: long sums, deep nesting, many statements, wide alignment padding
+	for _, sh := range acclib.LargeShapes {
+		for _, n := range acclib.LargeSizes(tier) {
+			emit(fmt.Sprintf("large %s %d", sh, n))
+		}
+	}
 	// keyword look-alike identifiers in every statement position, with and without the optional keyword
 	acclib.LookalikeCases(func(src string, want *ast.Chain) {
 		emit("parsex " + hex(src) + " " + acclib.EncScript(want))
@@ -103,7 +109,7 @@ func gen(tier string, r *lib.Rand, emit func(string)) {
 func nontrivial(c, res string) bool {
 	// parsed and contains at least two operators
 	f := strings.Split(res, " ")
-	if strings.HasPrefix(c, "deepparse") {
+	if strings.HasPrefix(c, "deepparse") || strings.HasPrefix(c, "large") {
 		return res == "ok"
 	}
 	var enc string
